@@ -13,7 +13,7 @@ def NOT_REPRODUCED(msg=''):
     print('not reproduced', msg); sys.exit(0)
 
 
-p = Path(Line((-40+1j), (-40-40j)), Line((-40-40j), (-40+1j)), QuadraticBezier((-40+1j), (-40+0j), (-40+1j)))
+p = Path(Line((-40+1j), (-40-40j)), QuadraticBezier((-40-40j), (-40+0j), (-40-40j)), Line((-40-40j), (-40+1j)))
 opts = dict(useSandT=False, use_closed_attrib=True, rel=False)
 d = p.d(**opts)
 try:
